@@ -1,14 +1,16 @@
 (* The wake-up protocol between submit() / Future.cancel() / shutdown() and the executor manager thread (C01, C05).
    The manager sleeps in wait_result_broken_or_wakeup(); it is woken by a byte in the wake-up pipe (submit, shutdown) or by a result.
    After waking it CLEARS the pipe, processes the result it read, and -- if the pool is shutting down -- leaves when nothing is
-   pending.  Finding H11 (fixed by 935b0be, see known_findings.json): a job submitted, cancelled and followed by
-   shutdown(wait=True) before the manager looked at it stayed in pending_work_items; the manager had already consumed the
-   shutdown wake-up, dropped the cancelled item on its next round and went back to sleep for ever.  Whether the manager re-reads
-   the work ids before deciding to wait again is read off the source (Gen/Ledger.v: manager_rechecks_work_ids_when_shutting_down).
-   Counters only: how many items of pending_work_items are untouched (still in work_ids) and pending / cancelled, dispatched,
+   pending.  submit() is walked statement by statement in the order of the source (Gen/Pool.v: submit_prog): registering the work
+   item, publishing its id, writing the wake-up byte are three separate steps the manager can interleave with.
+   Finding H11 (fixed by 935b0be, see known_findings.json): a job submitted, cancelled and followed by shutdown(wait=True) before the
+   manager looked at it stayed in pending_work_items; the manager had already consumed the shutdown wake-up, dropped the cancelled
+   item on its next round and went back to sleep for ever.  Whether the manager re-reads the work ids before deciding to wait again
+   is read off the source (Gen/Ledger.v: manager_rechecks_work_ids_when_shutting_down).
+   Counters only: items of pending_work_items whose id is not published yet, published and still pending / cancelled, dispatched,
    finished but not yet processed.  Definitions only; proofs in Proofs/WakeThm.v. *)
 From Coq Require Import List Arith Bool.
-From LokyV Require Import Lib.LedgerLib Gen.Ledger.
+From LokyV Require Import Lib.LedgerLib Gen.Ledger Lib.PoolLib Gen.Pool.
 Import ListNotations.
 
 Inductive mph :=
@@ -20,54 +22,78 @@ Inductive mph :=
 | MExit.        (* join_executor_internals(); the thread ends *)
 
 Record ws := mkw {
-  np : nat; nc : nat;           (* items whose id is still in work_ids: pending / cancelled *)
+  nt : nat;                     (* items registered in pending_work_items whose id is not in work_ids yet *)
+  np : nat; nc : nat;           (* items whose id is in work_ids: pending / cancelled *)
   nr : nat;                     (* dispatched, running *)
   nd : nat;                     (* finished, result not yet processed by the manager *)
   wake : nat;                   (* bytes in the wake-up pipe *)
   results : nat;                (* results readable in the result pipe *)
   have : bool;                  (* the manager holds a result it has read *)
   shut : bool;
-  ph : mph
+  ph : mph;
+  sub : list sop                (* the submit() in progress (under the shutdown lock): what is left of its body *)
 }.
-Definition ws0 : ws := mkw 0 0 0 0 0 0 false false MAdd.
-Definition in_table (s : ws) : nat := np s + nc s + nr s + nd s.      (* len(pending_work_items) *)
+Definition ws0 : ws := mkw 0 0 0 0 0 0 0 false false MAdd [].
+Definition in_table (s : ws) : nat := nt s + np s + nc s + nr s + nd s.      (* len(pending_work_items) *)
+
+(* the statements of submit() that matter here, in source order *)
+Definition relevant (o : sop) : bool := match o with SAddPending | SPutWorkId | SWakeup => true | _ => false end.
+Definition wake_ops : list sop := filter relevant submit_prog.
 
 Inductive ev :=
-| Submit                (* pending[w] = item; work_ids.put(w); wakeup() *)
-| Cancel                (* Future.cancel() on a future that is still pending *)
-| Shutdown              (* flag; wakeup() *)
+| SubmitBegin           (* submit() takes the shutdown lock and passes its checks *)
+| SubStep               (* its next statement *)
+| Cancel                (* Future.cancel() on a future that is still pending and published *)
+| Shutdown              (* flag (under the shutdown lock); wakeup() *)
 | Finish                (* a worker finishes a dispatched item: its result becomes readable *)
 | Mgr.                  (* the manager's next step *)
 
-Definition step_with (rechecks : bool) (s : ws) (e : ev) : ws :=
+Definition upd_sub (s : ws) (nt' np' wake' : nat) (l : list sop) : ws :=
+  mkw nt' np' (nc s) (nr s) (nd s) wake' (results s) (have s) (shut s) (ph s) l.
+
+Definition step_with (rechecks : bool) (ops : list sop) (s : ws) (e : ev) : ws :=
   match e with
-  | Submit => if shut s then s else mkw (S (np s)) (nc s) (nr s) (nd s) (S (wake s)) (results s) (have s) (shut s) (ph s)
-  | Cancel => match np s with S n => mkw n (S (nc s)) (nr s) (nd s) (wake s) (results s) (have s) (shut s) (ph s) | 0 => s end
-  | Shutdown => mkw (np s) (nc s) (nr s) (nd s) (S (wake s)) (results s) (have s) true (ph s)
-  | Finish => match nr s with S n => mkw (np s) (nc s) n (S (nd s)) (wake s) (S (results s)) (have s) (shut s) (ph s) | 0 => s end
+  | SubmitBegin => match sub s with
+                   | [] => if shut s then s else upd_sub s (nt s) (np s) (wake s) ops
+                   | _ => s end
+  | SubStep => match sub s with
+               | SAddPending :: r => upd_sub s (S (nt s)) (np s) (wake s) r
+               | SPutWorkId :: r => match nt s with S n => upd_sub s n (S (np s)) (wake s) r | 0 => upd_sub s 0 (np s) (wake s) r end
+               | SWakeup :: r => upd_sub s (nt s) (np s) (S (wake s)) r
+               | _ :: r => upd_sub s (nt s) (np s) (wake s) r
+               | [] => s end
+  | Cancel => match np s with
+              | S n => mkw (nt s) n (S (nc s)) (nr s) (nd s) (wake s) (results s) (have s) (shut s) (ph s) (sub s)
+              | 0 => s end
+  | Shutdown => match sub s with
+                | [] => mkw (nt s) (np s) (nc s) (nr s) (nd s) (S (wake s)) (results s) (have s) true (ph s) []
+                | _ => s end                       (* the flag is set under the lock submit() holds *)
+  | Finish => match nr s with
+              | S n => mkw (nt s) (np s) (nc s) n (S (nd s)) (wake s) (S (results s)) (have s) (shut s) (ph s) (sub s)
+              | 0 => s end
   | Mgr =>
       match ph s with
-      | MAdd =>      (* every work id is looked at: a cancelled item is dropped, a pending one is dispatched *)
-          mkw 0 0 (nr s + np s) (nd s) (wake s) (results s) (have s) (shut s) MWait
+      | MAdd =>      (* every published work id is looked at: a cancelled item is dropped, a pending one is dispatched *)
+          mkw (nt s) 0 0 (nr s + np s) (nd s) (wake s) (results s) (have s) (shut s) MWait (sub s)
       | MWait => if Nat.eqb (wake s + results s) 0 then s        (* blocked *)
                  else match results s with
-                      | S r => mkw (np s) (nc s) (nr s) (nd s) (wake s) r true (shut s) MWoken
-                      | 0 => mkw (np s) (nc s) (nr s) (nd s) (wake s) 0 false (shut s) MWoken end
-      | MWoken => mkw (np s) (nc s) (nr s) (nd s) 0 (results s) (have s) (shut s) MProcess           (* thread_wakeup.clear() *)
-      | MProcess => mkw (np s) (nc s) (nr s) (if have s then pred (nd s) else nd s) (wake s) (results s) false (shut s) MCheck
+                      | S r => mkw (nt s) (np s) (nc s) (nr s) (nd s) (wake s) r true (shut s) MWoken (sub s)
+                      | 0 => mkw (nt s) (np s) (nc s) (nr s) (nd s) (wake s) 0 false (shut s) MWoken (sub s) end
+      | MWoken => mkw (nt s) (np s) (nc s) (nr s) (nd s) 0 (results s) (have s) (shut s) MProcess (sub s)           (* thread_wakeup.clear() *)
+      | MProcess => mkw (nt s) (np s) (nc s) (nr s) (if have s then pred (nd s) else nd s) (wake s) (results s) false (shut s) MCheck (sub s)
       | MCheck =>
           if shut s then
-            let s1 := if rechecks then mkw 0 0 (nr s + np s) (nd s) (wake s) (results s) (have s) (shut s) (ph s) else s in
+            let s1 := if rechecks then mkw (nt s) 0 0 (nr s + np s) (nd s) (wake s) (results s) (have s) (shut s) (ph s) (sub s) else s in
             if Nat.eqb (in_table s1) 0
-            then mkw (np s1) (nc s1) (nr s1) (nd s1) (wake s1) (results s1) (have s1) (shut s1) MExit
-            else mkw (np s1) (nc s1) (nr s1) (nd s1) (wake s1) (results s1) (have s1) (shut s1) MAdd
-          else mkw (np s) (nc s) (nr s) (nd s) (wake s) (results s) (have s) (shut s) MAdd
+            then mkw (nt s1) (np s1) (nc s1) (nr s1) (nd s1) (wake s1) (results s1) (have s1) (shut s1) MExit (sub s1)
+            else mkw (nt s1) (np s1) (nc s1) (nr s1) (nd s1) (wake s1) (results s1) (have s1) (shut s1) MAdd (sub s1)
+          else mkw (nt s) (np s) (nc s) (nr s) (nd s) (wake s) (results s) (have s) (shut s) MAdd (sub s)
       | MExit => s
       end
   end.
-Definition step := step_with manager_rechecks_work_ids_when_shutting_down.
+Definition step := step_with manager_rechecks_work_ids_when_shutting_down wake_ops.
 Definition run (es : list ev) (s : ws) : ws := fold_left step es s.
 
-(* the manager sleeps and nothing inside the pool will ever wake it *)
+(* the manager sleeps, no submit() is in progress, and nothing inside the pool will ever wake it *)
 Definition asleep_for_good (s : ws) : bool :=
-  match ph s with MWait => Nat.eqb (wake s + results s) 0 && Nat.eqb (nr s) 0 | _ => false end.
+  match ph s, sub s with MWait, [] => Nat.eqb (wake s + results s) 0 && Nat.eqb (nr s) 0 | _, _ => false end.
